@@ -1,8 +1,8 @@
 #!/bin/bash
 # Runs the repository's suite with the verif guard OFF and compares with /root/.vp/BASELINE.json:
-# prints the stable-pass tests that did not pass. Usage: tools/baseline.sh [pkg pattern ...]
+# prints the stable-pass tests that did not pass. Usage: [BASELINE_REPO=<worktree>] tools/baseline.sh [pkg pattern ...]
 set -u
-cd /repo
+cd "${BASELINE_REPO:-/repo}"
 GO=$(env -u GOTOOLCHAIN -u GOFLAGS go env GOROOT)/bin/go
 export GOTOOLCHAIN=local GOFLAGS=-mod=mod GOPROXY=off GOSUMDB=off
 OUT=${BASELINE_OUT:-/var/tmp/baseline.$$.json}
